@@ -82,6 +82,11 @@ class Driver(object):
             if "add" in K and g.holding and g.n_add < self.max_adds:
                 for (ph, body, mid_) in self.msgs:
                     evs.append(("add", c, ph, body, mid_))
+            elif "add" in K and g.did_close and self.msgs and g.n_add < self.max_adds:
+                # a late add on a connection that already closed its mailbox: must be refused (an error, no effect);
+                # on correct code this is a self-loop
+                (ph, body, mid_) = self.msgs[0]
+                evs.append(("add", c, ph, body, mid_))
             if "close" in K and not g.did_close:
                 if g.open_mid is not None:
                     for mood in self.moods:
